@@ -345,7 +345,53 @@ func (kf *kindFlow) sub(h *ssa.Function) *kindFlow {
 	}
 	kf.subs[h] = nil // guards against recursion
 	c := curCtx
-	if c == nil || h == nil || h.Parent() != nil || !c.transparent(h) {
+	if c == nil || h == nil {
+		return nil
+	}
+	// the body of a range-over-func loop: it runs while the iterator call is in progress, so what is known
+	// about the subject where the body closure is created still holds inside (the subject is read through
+	// the captured variable's cell)
+	if h.Parent() != nil && strings.Contains(h.Synthetic, "range-over-func") {
+		parentFlow := kf
+		if h.Parent() != kf.fn {
+			parentFlow = kf.sub(h.Parent())
+		}
+		if parentFlow == nil {
+			return nil
+		}
+		var mc *ssa.MakeClosure
+		core.EachInstr(h.Parent(), func(i ssa.Instruction) {
+			if m, ok := i.(*ssa.MakeClosure); ok && m.Fn == h {
+				mc = m
+			}
+		})
+		if mc == nil {
+			return nil
+		}
+		// subject cells: cells of which the parent has a load that is a subject
+		cells := map[*ssa.Alloc]bool{}
+		for _, f := range core.WithAnon(outermost(h)) {
+			core.EachInstr(f, func(i ssa.Instruction) {
+				if ld, ok := i.(*ssa.UnOp); ok && ld.Op == token.MUL && ld.Parent() == parentFlow.fn && parentFlow.subject(ld) {
+					if a := resolveCell(ld.X); a != nil {
+						cells[a] = true
+					}
+				}
+			})
+		}
+		if len(cells) == 0 {
+			return nil
+		}
+		subject := func(v ssa.Value) bool {
+			ld, ok := v.(*ssa.UnOp)
+			return ok && ld.Op == token.MUL && cells[resolveCell(ld.X)]
+		}
+		s := &kindFlow{fn: h, subject: subject, in: map[*ssa.BasicBlock]KindSet{}, reached: map[*ssa.BasicBlock]bool{}, entry: parentFlow.At(mc), hasEnt: true}
+		s.solve()
+		kf.subs[h] = s
+		return s
+	}
+	if h.Parent() != nil || !c.transparent(h) {
 		return nil
 	}
 	sites := c.P.CallIndex().Sites[h]
